@@ -3,7 +3,9 @@
   code (`step false`) from the initial state, for ANY thread programs `prog :
   Tid → List Op` (any number of threads) and ANY schedule.
 -/
-import IgrisModel.C20.WaitStep
+import IgrisModel.C20.Order
+import IgrisModel.C20.EventLemmas
+import IgrisModel.C20.SafeQLemmas
 namespace Igris.C20
 
 /-! ### system lock -/
@@ -174,5 +176,410 @@ theorem popped_prefix {prog q0 s} (h : Reach prog q0 s) : s.popped <+: s.pushed 
 theorem per_producer_order {prog q0 s} (h : Reach prog q0 s) (p : Tid) :
     (s.popped.filter (·.1 = p)) <+: (s.pushed.filter (·.1 = p)) := by
   rw [queue_fifo h, List.filter_append]; exact List.prefix_append _ _
+
+/-! ## every schedule INCLUDING spurious returns of the condition-variable wait
+
+`ReachS`: besides "thread t runs to its next synchronisation point" the
+scheduler may at any moment let the `pthread_cond_wait` of a sleeping waiter
+return although nobody notified (`Act.spur`, POSIX permits it).  Everything
+above holds on this larger set of schedules. -/
+
+/-- the schedules without spurious returns are among them -/
+theorem reach_is_reachS {prog q0 s} (h : Reach prog q0 s) : ReachS prog q0 s := reach_reachS h
+
+/-- non-vacuity: a state that only a spurious return reaches (the waiter stands
+    at the re-acquisition of its mutex although no unwait ran) -/
+example : ∃ s, ReachS (fun t => if t = 0 then [.wait false] else []) [] s ∧ s.pc 0 = .wReacq ∧ s.ulk 0 = false :=
+  ⟨runActs false (init (fun t => if t = 0 then [.wait false] else []) [])
+      [.run 0, .run 0, .run 0, .run 0, .run 0, .spur 0],
+   .act (a := .spur 0) (.act (a := .run 0) (.act (a := .run 0) (.act (a := .run 0) (.act (a := .run 0)
+     (.act (a := .run 0) .init rfl) rfl) rfl) rfl) rfl) rfl, by decide, by decide⟩
+
+theorem mutex_inv_spur {prog q0 s} (h : ReachS prog q0 s) :
+    (s.owner = none → s.depth = 0) ∧
+    (∀ t, s.owner = some t → s.count t = (s.depth : Int) ∧ 0 < s.depth) ∧
+    (∀ t, s.owner ≠ some t → s.count t = 0) :=
+  ⟨(reachS_MI h).free, (reachS_MI h).own, (reachS_MI h).other⟩
+
+theorem mutual_exclusion_spur {prog q0 s} (h : ReachS prog q0 s) (t u : Tid)
+    (ht : 0 < s.count t) (hu : 0 < s.count u) : t = u := by
+  have hm := reachS_MI h
+  have h1 : s.owner = some t := by
+    by_cases e : s.owner = some t
+    · exact e
+    · have := hm.other t e; omega
+  have h2 : s.owner = some u := by
+    by_cases e : s.owner = some u
+    · exact e
+    · have := hm.other u e; omega
+  rw [h1] at h2; exact Option.some.inj h2
+
+/-- the waker never touches a destroyed event — also when waiters wake spuriously -/
+theorem no_touch_after_destroy_spur {prog q0 s} (h : ReachS prog q0 s) : s.uaf = false :=
+  (reachS_CI h).noUaf
+
+theorem signal_target_alive_spur {prog q0 s} (h : ReachS prog q0 s) (k w : Tid)
+    (hk : Sig w (s.pc k) = true) :
+    (s.ev w).alive = true ∧ Waiting (s.pc w) = true ∧ k ≠ w :=
+  ⟨sig_alive (reachS_CI h) hk, ((reachS_CI h).sig k w hk).2.1, ((reachS_CI h).sig k w hk).1⟩
+
+/-- THE clause "nobody is woken spuriously" against an adversarial condition
+    variable: a parked thread leaves event.wait / wait_current_schedee only after
+    its own unwait — whatever spurious returns the scheduler injects -/
+theorem leaves_only_after_own_unwait {prog q0 s} (h : ReachS prog q0 s) (w : Tid)
+    (hw : Seen (s.pc w) = true) : (s.ev w).flag = true ∧ s.ulk w = true := by
+  have hc := reachS_CI h
+  have hf := hc.seen w hw
+  exact ⟨hf, (hc.flagged w (seen_inwait _ hw) hf).1⟩
+
+/-- the predicate loop: a waiter that woke (spuriously or not) while no unwait has
+    unlinked it finds its flag clear and goes back to sleep -/
+theorem spurious_return_sleeps_again {prog q0 s} (h : ReachS prog q0 s) (w : Tid)
+    (hpc : s.pc w = .wReacq) (hu : s.ulk w = false) (hfree : (s.ev w).holder = none) :
+    ∃ s', step false s w = some s' ∧ s'.pc w = .wSleep ∧ s'.obs w = s.obs w := by
+  have hc := reachS_CI h
+  have hf : (s.ev w).flag = false := by
+    cases hfl : (s.ev w).flag with
+    | false => rfl
+    | true =>
+      have := (hc.flagged w (by rw [hpc]; rfl) hfl).1
+      rw [hu] at this; cases this
+  exact ⟨setPc s w .wSleep, by simp [step, hpc, hfree, hf], by simp [setPc], rfl⟩
+
+/-- the hand-made break `if (!m_bFlag) m_condition.wait(_lock);` (no re-test after
+    the condition variable returned): one spurious return lets a waiter leave
+    although nobody unlinked it (kernel-checked 7-action schedule) -/
+theorem if_variant_witness :
+    let s := runActsIf (init (fun t => if t = 0 then [.wait false] else []) [])
+      [.run 0, .run 0, .run 0, .run 0, .run 0, .spur 0, .run 0]
+    Seen (s.pc 0) = true ∧ (s.ev 0).flag = false ∧ s.ulk 0 = false ∧ 0 ∈ s.waitq := by
+  decide
+/-- the same schedule on the shipped code: the waiter sleeps again -/
+example :
+    (runActs false (init (fun t => if t = 0 then [.wait false] else []) [])
+      [.run 0, .run 0, .run 0, .run 0, .run 0, .spur 0, .run 0]).pc 0 = .wSleep := by
+  decide
+
+theorem no_lost_wakeup_spur {prog q0 s} (h : ReachS prog q0 s) (w : Tid) (hw : InWait (s.pc w) = true) :
+    (w ∈ s.waitq ∨ s.ulk w = true →
+      (w ∈ s.waitq ∧ s.ulk w = false) ∨ (s.ev w).flag = true ∨ ∃ k, IsSLock w (s.pc k) = true) ∧
+    (s.pc w = .wSleep → (s.ev w).flag = true → ∃ k, IsSNotify w (s.pc k) = true) := by
+  have hc := reachS_CI h
+  refine ⟨?_, hc.sleepnotify w⟩
+  intro hq
+  rcases hq with hq | hq
+  · exact Or.inl ⟨hq, (hc.inq w hq).2.2⟩
+  · exact Or.inr (hc.lostwake w hw hq)
+
+theorem waitq_wellformed_spur {prog q0 s} (h : ReachS prog q0 s) :
+    s.waitq.Nodup ∧ ∀ w, w ∈ s.waitq → Waiting (s.pc w) = true ∧ (s.ev w).flag = false ∧ s.ulk w = false :=
+  ⟨(reachS_CI h).nodup, (reachS_CI h).inq⟩
+
+theorem one_waker_per_waiter_spur {prog q0 s} (h : ReachS prog q0 s) (k1 k2 w : Tid)
+    (h1 : Sig w (s.pc k1) = true) (h2 : Sig w (s.pc k2) = true) : k1 = k2 :=
+  (reachS_CI h).sigUniq k1 k2 w h1 h2
+
+theorem event_mutex_holder_spur {prog q0 s} (h : ReachS prog q0 s) (w hd : Tid)
+    (hw : InWait (s.pc w) = true) (hh : (s.ev w).holder = some hd) :
+    (hd = w ∧ HoldsOwn (s.pc w) = true) ∨ SigHold w (s.pc hd) = true :=
+  (reachS_CI h).holder w hd hw hh
+
+theorem queue_fifo_spur {prog q0 s} (h : ReachS prog q0 s) : s.pushed = s.popped ++ s.queue :=
+  reachS_QI h
+
+/-! ### the ORDER of the wait queue (every schedule, with spurious returns) -/
+
+/-- the wait queue is always sorted in service order: priority waiters first,
+    newest first (`move_front`); then the ordinary waiters, oldest first (`move_back`) -/
+theorem waitq_order {prog q0 s} (h : ReachS prog q0 s) : s.waitq.Pairwise (Before s) :=
+  (reachS_OQ h).sorted
+
+/-- whom `unwait_one` wakes (the head, `unwait_unlinks_head`): when no prioritised
+    waiter is queued it is the LONGEST WAITING thread (strictly smallest enqueue
+    stamp) and nobody else in the queue is prioritised; otherwise it is a
+    prioritised one, the one that enqueued last among the prioritised -/
+theorem unwait_one_wakes_longest_waiting_or_prioritised {prog q0 s} (h : ReachS prog q0 s)
+    (w : Tid) (r : List Tid) (hq : s.waitq = w :: r) :
+    (s.prio w = false → ∀ u, u ∈ r → s.prio u = false ∧ s.stamp w < s.stamp u) ∧
+    (∀ u, u ∈ r → s.prio u = true → s.prio w = true ∧ s.stamp u < s.stamp w) := by
+  have hs := waitq_order h
+  rw [hq, List.pairwise_cons] at hs
+  constructor
+  · intro hp u hu
+    rcases hs.1 u hu with ⟨a, _⟩ | ⟨a, _, _⟩ | ⟨_, b, c⟩
+    · rw [hp] at a; cases a
+    · rw [hp] at a; cases a
+    · exact ⟨b, c⟩
+  · intro u hu hp
+    rcases hs.1 u hu with ⟨_, b⟩ | ⟨a, _, c⟩ | ⟨_, b, _⟩
+    · rw [hp] at b; cases b
+    · exact ⟨a, c⟩
+    · rw [hp] at b; cases b
+example : ∃ s, ReachS (fun t => if t = 0 then [.wait false] else []) [] s ∧ s.waitq = [0] :=
+  ⟨_, .act (a := .run 0) (.act (a := .run 0) .init rfl) rfl, by decide⟩
+
+/-- FIFO among ordinary (priority 0) waiters: of two queued ordinary waiters the
+    one in front enqueued earlier; and every queued prioritised waiter stands in
+    front of every ordinary one -/
+theorem fifo_among_equal_priority_partial {prog q0 s} (h : ReachS prog q0 s)
+    (l1 l2 : List Tid) (a b : Tid) (hq : s.waitq = l1 ++ a :: l2) (hb : b ∈ l2) :
+    (s.prio a = false → s.prio b = false ∧ s.stamp a < s.stamp b) ∧
+    (s.prio b = true → s.prio a = true) := by
+  have hs := waitq_order h
+  rw [hq, List.pairwise_append, List.pairwise_cons] at hs
+  have hab := hs.2.1.1 b hb
+  constructor
+  · intro hp
+    rcases hab with ⟨x, _⟩ | ⟨x, _, _⟩ | ⟨_, y, z⟩
+    · rw [hp] at x; cases x
+    · rw [hp] at x; cases x
+    · exact ⟨y, z⟩
+  · intro hp
+    rcases hab with ⟨x, _⟩ | ⟨x, _, _⟩ | ⟨_, y, _⟩
+    · exact x
+    · exact x
+    · rw [hp] at y; cases y
+
+/-- full FIFO among EQUAL priority does not hold for priority 1 (as built:
+    `move_front`): of two prioritised waiters the LATER one is served first -/
+theorem fifo_among_prioritised_witness :
+    let s := runSched false (init (fun t => if t = 0 then [.wait true] else if t = 1 then [.wait true] else []) [])
+      [0, 0, 0, 1, 1]
+    s.waitq = [1, 0] ∧ s.stamp 0 < s.stamp 1 := by
+  decide
+
+/-- stamps are a faithful clock: every queued waiter enqueued before now -/
+theorem waitq_stamps_fresh {prog q0 s} (h : ReachS prog q0 s) (w : Tid) (hw : w ∈ s.waitq) :
+    s.stamp w < s.clock :=
+  (reachS_OQ h).fresh w hw
+
+/-! ### the semaphore of safe_queue used as a mutex -/
+
+/-- binary semaphore as a mutex: the counter never exceeds 1, at most one thread
+    is between `sem.wait()` and `sem.post()`, and the counter is 1 exactly when
+    nobody is -/
+theorem queue_semaphore_is_mutex {prog q0 s} (h : ReachS prog q0 s) :
+    s.sem ≤ 1 ∧ (∀ t u, s.pc t = .qPost → s.pc u = .qPost → t = u) ∧
+    (s.sem = 1 ↔ ∀ t, s.pc t ≠ .qPost) := by
+  rcases reachS_SI h with ⟨a, b⟩ | ⟨a, k, b, c⟩
+  · exact ⟨by omega, fun t _ ht _ => absurd ht (b t), fun _ => b, fun _ => a⟩
+  · refine ⟨by omega, fun t u ht hu => (c t ht).trans (c u hu).symm, fun e => by omega, fun e => absurd b (e k)⟩
+
+/-- every pushed item is popped exactly once: the i-th pop returns the i-th push
+    (with its producer), for every i — so no item is popped twice or skipped —
+    and when the queue is empty everything pushed has been popped -/
+theorem pop_is_ith_push {prog q0 s} (h : ReachS prog q0 s) :
+    (∀ i, i < s.popped.length → s.popped[i]? = s.pushed[i]?) ∧
+    (s.queue = [] → s.popped = s.pushed) ∧
+    s.pushed.length = s.popped.length + s.queue.length := by
+  have hq := queue_fifo_spur h
+  refine ⟨fun i hi => ?_, fun e => ?_, ?_⟩
+  · rw [hq, List.getElem?_append_left hi]
+  · rw [hq, e, List.append_nil]
+  · rw [hq, List.length_append]
+
+theorem per_producer_order_spur {prog q0 s} (h : ReachS prog q0 s) (p : Tid) :
+    (s.popped.filter (·.1 = p)) <+: (s.pushed.filter (·.1 = p)) := by
+  rw [queue_fifo_spur h, List.filter_append]; exact List.prefix_append _ _
+
+/-! ## the shared event (wait / wait(timeout) / signal / reset / isset) and the semaphore
+
+`Ev.Reach prog s`: ONE `igris::event` and ONE `igris::semaphore(1)` shared by any
+number of threads running any programs, under every schedule of thread steps,
+spurious condition-variable returns and time-outs of timed waits. -/
+
+/-- the event's mutex: held exactly by the thread inside a critical section of
+    wait / signal / reset, hence by at most one -/
+theorem event_mutex_exclusive {prog s} (h : Ev.Reach prog s) (t u : Ev.Tid)
+    (ht : Ev.Holds (s.pc t) = true) (hu : Ev.Holds (s.pc u) = true) :
+    t = u ∧ s.holder = some t := by
+  have hi := Ev.reach_EI h
+  have a := (hi.hold t).mp ht
+  have b := (hi.hold u).mp hu
+  rw [a] at b
+  exact ⟨Option.some.inj b, a⟩
+
+/-- what a wait is about to return is the flag at that moment (it holds the
+    mutex): `wait()` — without time-out — only ever returns with the event SET,
+    whatever spurious returns happen; `wait(timeout)` returns false only while
+    the event is clear -/
+theorem event_wait_result_is_flag {prog s} (h : Ev.Reach prog s) (t : Ev.Tid) (timed r : Bool)
+    (hpc : s.pc t = .unlock timed r) :
+    s.flag = r ∧ (timed = false → r = true) ∧ s.holder = some t := by
+  have hi := Ev.reach_EI h
+  refine ⟨hi.ret t timed r hpc, ?_, (hi.hold t).mp (by rw [hpc]; rfl)⟩
+  intro e; subst e; exact hi.plain t r hpc
+example : ∃ s, Ev.Reach (fun t => if t = 0 then [.wait] else if t = 1 then [.signal] else []) s ∧
+    s.pc 0 = .unlock false true :=
+  ⟨_, Ev.reach_runActs .init [.run 0, .run 0, .spur 0, .run 1, .run 1, .run 1, .run 0], by decide⟩
+example : ∃ s, Ev.Reach (fun t => if t = 0 then [.waitFor false] else []) s ∧ s.pc 0 = .unlock true false :=
+  ⟨_, Ev.reach_runActs .init [.run 0, .run 0, .timeout 0, .run 0], by decide⟩
+
+/-- no lost wake-up on the shared event: while the flag is set, every thread
+    asleep in the condition variable has its notify_all still to come (and the
+    thread about to notify has the flag set) -/
+theorem event_no_lost_wakeup {prog s} (h : Ev.Reach prog s) (t : Ev.Tid)
+    (hs : Ev.IsSleep (s.pc t) = true) (hf : s.flag = true) :
+    ∃ k, Ev.IsNotify (s.pc k) = true ∧ s.holder = some k := by
+  have hi := Ev.reach_EI h
+  obtain ⟨k, hk⟩ := hi.sleepnotify t hs hf
+  exact ⟨k, hk, (hi.hold k).mp (Ev.notify_holds _ hk)⟩
+
+/-- notify_all leaves nobody asleep -/
+theorem event_notify_wakes_all (s : Ev.EState) (t : Ev.Tid) (r : Bool) (hpc : s.pc t = .gNotify r) :
+    ∃ s', Ev.step s t = some s' ∧ ∀ u, Ev.IsSleep (s'.pc u) = false := by
+  refine ⟨_, by simp [Ev.step, hpc]; rfl, ?_⟩
+  intro u
+  simp only [Ev.upd]
+  split
+  · rfl
+  · exact Ev.sleep_wake _
+
+/-- signal() sets the flag and reports whether it was clear; reset() clears it
+    and reports whether it was set (both under the mutex) -/
+theorem event_signal_reset_results (s : Ev.EState) (t : Ev.Tid) (rest : List Ev.EOp)
+    (hpc : s.pc t = .idle) (hfree : s.holder = none) :
+    (s.prog t = .signal :: rest → ∃ s', Ev.step s t = some s' ∧ s'.flag = true ∧ s'.pc t = .gNotify (!s.flag)) ∧
+    (s.prog t = .reset :: rest → ∃ s', Ev.step s t = some s' ∧ s'.flag = false ∧ s'.pc t = .rUnlock s.flag) := by
+  constructor <;> intro hp <;> simp [Ev.step, hpc, hp, Ev.stepIdle, hfree, Ev.upd]
+
+/-- semaphore accounting: value + successful waits = initial value + posts;
+    `wait` blocks exactly at 0, `trywait` never blocks -/
+theorem semaphore_accounting {prog s} (h : Ev.Reach prog s) (t : Ev.Tid) (rest : List Ev.EOp) :
+    s.sv + s.takes = 1 + s.posts ∧
+    ((Ev.stepIdle s t .sWait rest).isNone ↔ s.sv = 0) ∧ (Ev.stepIdle s t .sTry rest).isSome := by
+  refine ⟨(Ev.reach_EI h).acct, ?_, ?_⟩
+  · simp only [Ev.stepIdle]; split <;> simp <;> omega
+  · simp only [Ev.stepIdle]; split <;> simp
+
+/-! ## safe_queue at the grain of its real steps: FIFO FROM the semaphore's exclusion
+
+`SQ.Reach`: sem.wait / start of the container operation (snapshot) / end of the
+operation (write-back) / sem.post are separate steps; a container operation is
+NOT atomic (two overlapping operations lose an update).  Any number of
+producers / consumers, any programs, every schedule. -/
+
+/-- the semaphore is a binary mutex: `sem ≤ 1`, at most one thread between
+    `sem.wait()` and `sem.post()`, `sem = 1` exactly when nobody is -/
+theorem safe_queue_critical_sections_exclusive {prog q0 s} (h : SQ.Reach prog q0 s) :
+    s.sem ≤ 1 ∧ (∀ t u, SQ.InCS (s.pc t) = true → SQ.InCS (s.pc u) = true → t = u) ∧
+    (s.sem = 1 ↔ ∀ t, SQ.InCS (s.pc t) = false) := by
+  rcases (SQ.reach_QI h).excl with ⟨a, b⟩ | ⟨a, k, b, c⟩
+  · refine ⟨by omega, fun t _ ht _ => ?_, fun _ => b, fun _ => a⟩
+    rw [b t] at ht; cases ht
+  · refine ⟨by omega, fun t u ht hu => (c t ht).trans (c u hu).symm, fun e => by omega, fun e => ?_⟩
+    rw [e k] at b; cases b
+
+/-- … therefore a running container operation always works on the CURRENT
+    content, and the content is the FIFO of the history: everything pushed =
+    everything popped, in order, followed by the content (nothing lost,
+    duplicated or reordered); per-producer order -/
+theorem safe_queue_fifo_from_exclusion {prog q0 s} (h : SQ.Reach prog q0 s) :
+    (∀ t op sn, s.pc t = .mid op sn → sn = s.queue) ∧
+    s.pushed = s.popped ++ s.queue ∧
+    (∀ p, (s.popped.filter (·.1 = p)) <+: (s.pushed.filter (·.1 = p))) := by
+  have hq := SQ.reach_QI h
+  refine ⟨hq.snap, hq.fifo, fun p => ?_⟩
+  rw [hq.fifo, List.filter_append]; exact List.prefix_append _ _
+example : ∃ s, SQ.Reach (fun t => if t = 0 then [.push 1] else []) [] s ∧ s.pc 0 = .mid (.push 1) [] :=
+  ⟨_, .step (t := 0) (.step (t := 0) .init rfl) rfl, by decide⟩
+
+/-- WITHOUT the semaphore the same code loses an item: two pushes overlap (both
+    inside the container operation at once), the second write-back overwrites
+    the first (kernel-checked 6-step schedule); with the semaphore the same
+    schedule keeps both -/
+theorem safe_queue_without_semaphore_witness :
+    let prog : SQ.Tid → List SQ.QOp := fun t => if t = 0 then [.push 1] else if t = 1 then [.push 2] else []
+    let mid := SQ.runSched false (SQ.init prog []) [0, 1, 0, 1]
+    let s := SQ.runSched false (SQ.init prog []) [0, 1, 0, 1, 0, 1]
+    (SQ.InCS (mid.pc 0) = true ∧ SQ.InCS (mid.pc 1) = true) ∧
+    s.pushed = [(0, 1), (1, 2)] ∧ s.queue = [(1, 2)] ∧ s.pushed ≠ s.popped ++ s.queue := by
+  decide
+example :
+    let prog : SQ.Tid → List SQ.QOp := fun t => if t = 0 then [.push 1] else if t = 1 then [.push 2] else []
+    (SQ.runSched true (SQ.init prog []) [0, 1, 0, 1, 0, 1, 0, 1, 1, 1, 1]).queue = [(0, 1), (1, 2)] := by
+  decide
+
+/-! ## system lock: statements over histories -/
+
+/-- `k` consecutive system_unlock calls of thread `t` -/
+def unlockN (t : Tid) : Nat → State → State
+  | 0, s => s
+  | k + 1, s => unlockN t k (sysUnlock s t)
+
+theorem unlockN_spec (t : Tid) : ∀ (k : Nat) (s : State), MI s → s.owner = some t → k ≤ s.depth →
+    MI (unlockN t k s) ∧ (unlockN t k s).depth = s.depth - k ∧
+    (unlockN t k s).owner = (if k = s.depth then none else some t) := by
+  intro k
+  induction k with
+  | zero =>
+    intro s hm ho _
+    have := (hm.own t ho).2
+    refine ⟨hm, rfl, ?_⟩
+    have : ¬ (0 = s.depth) := by omega
+    simp [unlockN, this, ho]
+  | succ k ih =>
+    intro s hm ho hk
+    have hd := (hm.own t ho).2
+    have hm1 : MI (sysUnlock s t) := sysUnlock_MI hm
+    have hdep : (sysUnlock s t).depth = s.depth - 1 := by simp [sysUnlock, ho, mtxUnlock]
+    by_cases h1 : s.depth = 1
+    · have hk0 : k = 0 := by omega
+      subst hk0
+      have ho1 : (sysUnlock s t).owner = none := by simp [sysUnlock, ho, mtxUnlock, h1]
+      refine ⟨hm1, by simp [unlockN, hdep], ?_⟩
+      simp [unlockN, ho1, h1]
+    · have ho1 : (sysUnlock s t).owner = some t := by
+        have : s.depth - 1 ≠ 0 := by omega
+        simp [sysUnlock, ho, mtxUnlock, this]
+      obtain ⟨a, b, c⟩ := ih (sysUnlock s t) hm1 ho1 (by rw [hdep]; omega)
+      refine ⟨a, by simp only [unlockN]; rw [b, hdep]; omega, ?_⟩
+      simp only [unlockN]; rw [c, hdep]
+      by_cases e : k = s.depth - 1
+      · have h2 : k + 1 = s.depth := by omega
+        rw [if_pos e, if_pos h2]
+      · have h2 : ¬ (k + 1 = s.depth) := by omega
+        rw [if_neg e, if_neg h2]
+
+/-- released only when EVERY nested acquisition has been undone, as a statement
+    about histories: in any reachable state (any schedule prefix, with spurious
+    returns) in which thread `t` holds the system lock at depth `d`, after any
+    `k < d` of its unlocks the lock is still its own and every other thread's
+    `system_lock` blocks, and after exactly `d` unlocks the lock is free and any
+    thread can take it -/
+theorem needs_exactly_depth_unlocks {prog q0 s} (h : ReachS prog q0 s) (t : Tid)
+    (ho : s.owner = some t) (k : Nat) (hk : k ≤ s.depth) :
+    (k < s.depth → (unlockN t k s).owner = some t ∧ ∀ u, u ≠ t → sysLock (unlockN t k s) u = none) ∧
+    (k = s.depth → (unlockN t k s).owner = none ∧ ∀ u, (sysLock (unlockN t k s) u).isSome) := by
+  obtain ⟨_, _, c⟩ := unlockN_spec t k s (reachS_MI h) ho hk
+  constructor
+  · intro hlt
+    have : ¬ (k = s.depth) := by omega
+    simp only [this, if_false] at c
+    refine ⟨c, fun u hu => ?_⟩
+    simp [sysLock, c]; exact fun e => hu e.symm
+  · intro he
+    rw [if_pos he] at c
+    refine ⟨c, fun u => ?_⟩
+    simp [sysLock, c]
+example : ∃ s, ReachS (fun t => if t = 0 then [.lock, .lock, .lock] else []) [] s ∧ s.owner = some 0 ∧ s.depth = 3 :=
+  ⟨_, .act (a := .run 0) (.act (a := .run 0) (.act (a := .run 0) .init rfl) rfl) rfl, by decide, by decide⟩
+
+/-- after system_lock_save the preconditions of system_lock_restore hold, and the
+    restore gives back exactly the depth and count the thread had: save ; restore
+    is the identity on (owner, depth, count t) from every reachable state in which
+    `t` owns the lock -/
+theorem save_then_restore {prog q0 s} (h : ReachS prog q0 s) (t : Tid) (ho : s.owner = some t) :
+    ∃ s', sysRestore (sysSave false s t) t = some s' ∧
+      s'.owner = some t ∧ s'.depth = s.depth ∧ s'.count t = s.count t ∧ s'.fault = s.fault := by
+  have hm := reachS_MI h
+  have hown := hm.own t ho
+  have hpos : 0 < s.count t := by omega
+  have hn : (s.count t).toNat = s.depth := by omega
+  have hd : 0 < s.depth := hown.2
+  simp only [sysSave, ho, hpos, and_self, if_true, Bool.false_eq_true, if_false]
+  rw [saveLoop_eq _ _ _ (by simp [hn])]
+  have hz : s.count t - (s.depth : Int) = 0 := by omega
+  simp [sysRestore, hn, hd, hpos, hz]
 
 end Igris.C20
